@@ -248,7 +248,7 @@ impl KeyMaterialClientAuth {
 //@|     final(io).sent() == old(io).sent(),
 //@|     final(io).session() == old(io).session(),
 //@|     r matches Ok((t, _)) ==> expected_types@.contains(t),
-//@rw R1 1
+//@rw R1 *
 //@- .map_err(|err| e!(Error::Websocket, anyerr!(err)))?
 //@+ .map_err(|_err| e!(Error::Websocket, anyerr!(err)))?
 //@end
@@ -263,7 +263,7 @@ impl KeyMaterialClientAuth {
 //@|     // handshake by itself — the challenge round follows, which is what lets an honest client always get in
 //@|     final(io).sent() == old(io).sent() || final(io).sent() == old(io).sent().push(FrameType::ServerChallenge)
 //@|         || final(io).sent() == old(io).sent().push(FrameType::ServerChallenge).push(FrameType::ServerDeniesAuth),
-//@rwx R1 2
+//@rwx R1 *
 //@- \.map_err\(\|_\| \{
 //@+ .map_err(|_w| {
 //@rwx R15 *
